@@ -954,7 +954,8 @@ def family_X(seed: int, count: int, *, race=False) -> List[Spec]:
 def family_V(seed: int, count: int) -> List[Spec]:
     rng = random.Random(seed)
     out = []
-    shapes = ["one", "no_onerror", "two", "with_after", "nested", "reenter_done", "slow_exit"]
+    shapes = ["one", "no_onerror", "two", "with_after", "nested", "reenter_done", "slow_exit",
+              "plain_ok", "plain_fail", "plain_fail_unhandled"]
     for i in range(count):
         shape = shapes[i % len(shapes)]
         inv = lambda iid, src, done, err=True: {"src": src, "id": iid,
@@ -984,6 +985,10 @@ def family_V(seed: int, count: int) -> List[Spec]:
             # the service can complete while the exit action of the invoking state is suspended
             A["invoke"] = inv("i1", "s1", "#m.B")
             A["exit"] = ["ex:m.A", "slow:100:exA"]
+        elif shape in ("plain_ok", "plain_fail", "plain_fail_unhandled"):
+            # a plain (non-coroutine) callable: it has returned / raised by the time its task first runs
+            A["invoke"] = inv("i1", "s1", "#m.B", err=shape != "plain_fail_unhandled")
+            services["s1"] = "ok" if shape == "plain_ok" else "fail"
         elif shape == "reenter_done":
             A["invoke"] = {"src": "s1", "id": "i1", "onDone": {"target": "#m.A", "reenter": True, "actions": ["tr:done:i1"]},
                            "onError": {"target": "#m.C", "actions": ["tr:err:i1"]}}
